@@ -15,14 +15,41 @@ SPEC = {
     "n_quick": 4000, "n_thorough": 40000,
     "level": "proof",
     "what_violation": "websocket session deviates from the protocol / from the verified state machine",
+    "rule": ("scripts of client frames (init, start/subscribe with ids a,b,c incl. duplicates, stop/complete, ping, pong, "
+             "terminate, unreadable frames, EOF), init/ping callback answers, stream items/ends and keep-alive expiries, "
+             "for both protocols with and without keep-alive: a fixed corpus (witnesses of the three findings, boundary "
+             "conversations), all scripts over a 15-symbol alphabet up to length 2 (thorough 3) polled to quiescence after "
+             "every event, all continuations of an acknowledged handshake over a 10-symbol alphabet of length 2-3 "
+             "(thorough 3-4, every second one injected without intermediate polls), and random scripts of 3-40 events "
+             "with random batching; every poll_next call of the real WebSocket is one observation (frames taken from "
+             "the client stream + message/end/pending); distinct by script text; non-trivial = the server sent at least one message"),
+    "trusted": ["harness/src/bin/c25.rs: channel-backed client stream with a counting wrapper, gate-driven on_connection_init/on_ping, "
+                "manual runtime::Timer, subscription source streams taken from a registry, flag waker, decoding of outgoing frames",
+                "differential sampling: Ws.v poll = WebSocket::poll_next on this run's scripts",
+                "HashMap iteration order enters as the observed choice of each poll (checked admissible by the model)"],
+    "assumptions": [
+        "the consumer stops polling after Ready(None) (all integrations do: `while let Some(item) = stream.next().await`)",
+        "the Gallina state machine (Ws.v) is WebSocket::poll_next: checked by correspondence on this run's scripts only",
+        "messages of the other protocol (connection_terminate under graphql-transport-ws, ping/pong under graphql-ws) and the "
+        "legacy protocol's unspecified close codes are not judged by the monitor",
+    ],
 }
 
 
 MANIFEST = {
     "category": "proof",
-    "technique": "Coq proof",
-    "text": "",
-    "note": "",
+    "technique": ("Coq proof (simulation between an executable transcription of WebSocket::poll_next and a protocol monitor, "
+                  "by induction over arbitrary action lists) + differential correspondence of the state machine against the real WebSocket"),
+    "text": ("Coq theorems, for every list of client frames, callback answers, stream events, timer expiries, polls and stream "
+             "choices, both protocols: the session is accepted by a protocol monitor written from the two protocol documents that "
+             "tolerates exactly three recorded deviations; outside those classes (and always under subscriptions-transport-ws) the strict "
+             "monitor accepts (close codes 4429/4401/4409/4400, data only for the live operation of its id and in stream order, complete "
+             "only for stopped or ended operations); nothing is sent or read after a close/connection_error/end; data/next/complete only "
+             "after connection_ack; connection_ack at most once; a second connection_init closes with 4429/connection_error. "
+             "The three deviations are proved of the faithful model and replayed on the real code on every run. The state machine is "
+             "tied to the real WebSocket by driving it poll by poll with bounded-exhaustive and random scripts."),
+    "note": ("trusted: Coq kernel, the harness adapters (channels, gates, manual timer, frame decoding), sampled agreement model vs code; "
+             "theorems closed under the global context (no axioms)"),
 }
 
 
